@@ -72,7 +72,10 @@ def run(F, R):
                             "a description containing `\"\"\"` is written verbatim inside a block string and terminates it")
                     continue
                 st, detail = escaper_status(F, b, disp.args[0])
-                R.check(st == "complete", "R17.1", "quoted-placeholder:%s:%s" % (fnname, label), s["call"].where(), "complete escaper " + detail,
+                miss = ""
+                if st == "incomplete":
+                    miss = ":" + ",".join(re.findall(r"U\+[0-9A-F]{4}", detail))
+                R.check(st == "complete", "R17.1", "quoted-placeholder:%s:%s:%s%s" % (fnname, label, st, miss), s["call"].where(), "complete escaper " + detail,
                         "value written between quotes after `%s` is %s (%s): a `\"` or `\\` in it produces invalid SDL" % (label, st, detail))
     R.floor("R17.1", "quoted placeholders in SDL writers", n, 12)
 
